@@ -46,8 +46,8 @@ def golden(x):
     return {k: golden(x[k]) for k in x}
   if isinstance(x, np.ndarray):
     return ('arr', x.dtype.str, x.shape, x.tobytes())
-  if isinstance(x, list):
-    return ('list', tuple(golden(v) for v in x))  # opaque leaf: never mutated by the probe, compared by value
+  if isinstance(x, (list, tuple)):
+    return (type(x).__name__, tuple(golden(v) for v in x))  # opaque leaf: compared by value
   return x
 
 
@@ -71,7 +71,7 @@ def gen_source(rng, depth, counter):
     elif r < 0.9:
       d[k] = np.arange(counter[0] % 3 + 1)
     else:
-      d[k] = [counter[0]]
+      d[k] = rng.choice([[counter[0]], [counter[0], [counter[0] + 1]], ([counter[0]], 'in-tuple')])
   return d
 
 
@@ -96,6 +96,25 @@ def poison(ctx, x, _seen=None):
     for v in x:
       if isinstance(v, (dict, list, tuple)):
         poison(ctx, v, _seen)
+
+
+def poison_lists(x, _seen=None):
+  """Mutate in place every list reachable from x (used only on results of unfreeze, a documented deep copy)."""
+  if _seen is None:
+    _seen = set()
+  if id(x) in _seen:
+    return
+  _seen.add(id(x))
+  if isinstance(x, dict):
+    for v in list(x.values()):
+      poison_lists(v, _seen)
+  elif isinstance(x, list):
+    for v in list(x):
+      poison_lists(v, _seen)
+    x.append('POISON')
+  elif isinstance(x, tuple):
+    for v in x:
+      poison_lists(v, _seen)
 
 
 class Pool:
@@ -191,6 +210,8 @@ def run_history(ctx, rng, n_ops, pool_ref):
       elif op in ('unfreeze', 'unfreeze_fn'):
         u = fd.unfreeze() if op == 'unfreeze' else fcore.unfreeze(fd)
         ctx.check(isinstance(u, dict) and _geq(golden(u), golden(fd)), 'api:unfreeze_differs', None)
+        # unfreeze documents a deep, mutable copy: list leaves of the result may be mutated freely as well
+        poison_lists(u)
         poison(ctx, u)
       elif op in ('copy', 'copy_fn'):
         add = gen_source(rng, rng.randint(0, 2), counter)
@@ -265,7 +286,10 @@ def run_history(ctx, rng, n_ops, pool_ref):
             ctx.check(FrozenDict(u2) != fd, 'eq_hash:unequal_contents_equal', None)
     except InvariantBroken as e:
       ctx.violation('invariant:contents_changed_by_method', dict(op=op, error=str(e)[:300]))
-    pool.sweep('after %s (step %d)' % (op, step))
+    try:
+      pool.sweep('after %s (step %d)' % (op, step))
+    except InvariantBroken as e:
+      ctx.violation('invariant:contents_changed_by_method', dict(op=op, error=str(e)[:300], when='sweep'))
   pool_ref[0] = None
   return ops_done
 
@@ -275,7 +299,11 @@ def _has_kind(fd, kinds):
   def walk(x):
     if isinstance(x, Mapping):
       return any(walk(x[k]) for k in x)
-    return isinstance(x, kinds)
+    if isinstance(x, kinds):
+      return True
+    if isinstance(x, (list, tuple)):
+      return any(walk(v) for v in x)
+    return False
   return walk(fd)
 
 
